@@ -12,6 +12,9 @@ import OnlVerif.Util.TimerOnKReplay
 import OnlVerif.Net.WireOnKReplay
 import OnlVerif.Net.SPOnKReplay
 import OnlVerif.Net.TBOnKReplay
+import OnlVerif.Net.TwoRateOnKReplay
+import OnlVerif.Net.RROnKReplay
+import OnlVerif.Net.WRROnKReplay
 /-! Line-protocol driver: `driver <mode>` reads cases on stdin and prints the model's observations. -/
 
 def main (args : List String) : IO UInt32 := do
@@ -32,4 +35,7 @@ def main (args : List String) : IO UInt32 := do
   | ["wirek"] => wirekLoop stdin; return 0
   | ["spk"] => spkLoop stdin; return 0
   | ["tbk"] => tbkLoop stdin; return 0
+  | ["trk"] => trkLoop stdin; return 0
+  | ["rrk"] => rrkLoop stdin; return 0
+  | ["wrrk"] => wrrkLoop stdin; return 0
   | _ => IO.eprintln "usage: driver <kernel|fifo|gensink|timer|rt|…>"; return 2
